@@ -221,11 +221,25 @@ class _:
     raises = {"ValueError": lambda o: True}
 
 
-@contract(f"{M}.autosome_prefix", kind="property", status="TRUSTED")
+@contract(f"{M}.autosome_prefix", kind="property", properties=("C09", "C10"))
 class _:
     params = {"self": BA}
     result = STR
     pure = staticmethod(lambda o, s: s.scaffold_namer.autosome_prefix)
+
+
+@contract(f"{M}.autosome_prefix$setter", properties=("C10",))
+class _:
+    # the configured chromosome prefix reaches both users: the namer (scaffold names) and the statistics (CSV reports);
+    # the getter above reads the namer's copy, so after a set the getter returns what was set
+    params = {"self": BA, "prefix": STR}
+    result = NONE
+    modifies = staticmethod(lambda o: [("field", "ScaffoldNamer", "autosome_prefix", o.self.scaffold_namer),
+                                       ("field", "AssemblyStats", "autosome_prefix", o.self.assembly_stats)])
+    ensures = staticmethod(lambda o, n, res: [
+        ("namer-gets-the-prefix", n.self.scaffold_namer.autosome_prefix == o.prefix),
+        ("stats-get-the-prefix", n.self.assembly_stats.autosome_prefix == o.prefix),
+    ])
 
 
 def _norm_stmt(text):
